@@ -80,17 +80,23 @@ class View(BaseJournalBackend, BaseJournalSnapshot):
         return None
 
 
+def _tc(t: Any) -> tuple:
+    """trial_canon + the exact datetimes: in a journal they come from the records, so every worker
+    must reproduce them bit for bit."""
+    return trial_canon(t, None) + (("dt_exact", str(t.datetime_start), str(t.datetime_complete)),)
+
+
 def jdump(st: JournalStorage, n_trials_hint: int = 8) -> Any:
     """Canonical state through the public getters: all studies, all trials, every trial id."""
     out = []
     for fs in sorted(st.get_all_studies(), key=lambda s: s._study_id):
-        ts = tuple(trial_canon(t, None) for t in st.get_all_trials(fs._study_id, deepcopy=False))
+        ts = tuple(_tc(t) for t in st.get_all_trials(fs._study_id, deepcopy=False))
         out.append((fs._study_id, fs.study_name, tuple(d.name for d in fs.directions),
                     canon_value(fs.user_attrs), canon_value(fs.system_attrs), ts))
     by_id = []
     for tid in range(n_trials_hint):
         try:
-            by_id.append(trial_canon(st.get_trial(tid), None))
+            by_id.append(_tc(st.get_trial(tid)))
         except KeyError:
             by_id.append("KeyError")
     return (tuple(out), tuple(by_id))
@@ -116,6 +122,7 @@ ALPHABET = {
     "iv": ("set_iv", "t", 0, 0.5),
     "finish": ("set_state", "t", S.COMPLETE, (1.0,)),  # afterwards writes to t are rejected
     "claim2": ("set_state", "t2", S.RUNNING, None),
+    "rerun_values": ("set_state", "t", S.RUNNING, (5.0,)),  # RUNNING->RUNNING: rejected (returns False)
     "delete": ("delete_study", "s"),
     "study_attr": ("study_attr", "s", "k", [1]),
 }
